@@ -296,10 +296,16 @@ static int get_elem(a_byte const *p, a_size siz)
     }
     return v;
 }
+/* the comparator contract is negative / zero / positive: three spellings of the same order take turns (per recorded call) */
 static int cmp_key(void const *l, void const *r)
 {
     int a = *(a_byte const *)l / 10, b = *(a_byte const *)r / 10;
-    return (a > b) - (a < b);
+    switch (n_events % 3)
+    {
+    case 0: return (a > b) - (a < b);
+    case 1: return a - b;
+    default: return (a - b) * 100000;
+    }
 }
 static void build_que(a_que *q, int siz, int const *seq, int n, int p)
 {
@@ -522,11 +528,27 @@ static int do_que_random(unsigned long seed, int nhist, int nops, char const *pr
         a_que q[3];
         a_que_ctor(&q[1], (a_size)sizes[qrnd() % 3]);
         a_que_ctor(&q[2], (a_size)sizes[qrnd() % 3]);
+        int drain = 0, drain_at = 20 + (int)(qrnd() % 90), sorted_left = 0, pending = 0;
         for (int t = 0; t < nops; ++t)
         {
             int n = (int)q[1].num_, op = ops[qrnd() % (sizeof(ops) / sizeof(ops[0]))];
             if (qrnd() % 80 == 0) { op = 15 + (int)(qrnd() % 2); } /* emptying operations are rare so that the queues grow long */
-            if (n + (int)q[2].num_ > 150 && op <= 3) { op = 4 + (int)(qrnd() % 3); }
+            /* growth and drain phases: once the queue passes a threshold most steps take elements out again until it is
+               empty, so that the pool of recycled nodes grows as long as the queue was (and is then consumed again) */
+            if (!drain && n > drain_at) { drain = 1; }
+            if (drain && n == 0) { drain = 0; drain_at = 20 + (int)(qrnd() % 90); }
+            if (drain && qrnd() % 8 != 0) { op = 4 + (int)(qrnd() % 3); }
+            /* sorted phases start on an empty queue: sorted insertions and other order-preserving steps; an arbitrary
+               element pushed at the front (back) is put in its place by the following sort_fore (sort_back) */
+            if (n == 0 && !sorted_left && qrnd() % 2 == 0) { sorted_left = 30 + (int)(qrnd() % 120); }
+            if (sorted_left)
+            {
+                static int const keep[] = {12, 12, 12, 12, 12, 2, 1, 4, 5, 6, 7, 17};
+                op = pending ? pending : keep[qrnd() % 12];
+                pending = op == 2 ? 10 : op == 1 ? 11 : 0;
+                --sorted_left;
+                if (!sorted_left && pending) { sorted_left = 1; }
+            }
             int where = (int)(qrnd() % 8);
             int a1 = where == 0 ? HUGE_M : where == 1 ? n + 1 : (n ? (int)(qrnd() % (unsigned)n) : 0), a2 = 10 * (int)(qrnd() % 10) + (int)(qrnd() % 10);
             int z1 = (int)q[1].siz_;
@@ -549,7 +571,7 @@ static int do_que_random(unsigned long seed, int nhist, int nops, char const *pr
 #include "que_ops.inc"
             f_end();
             int rid = p ? aid((a_list *)p - 1) : 0;
-            if ((op == 1 || op == 2 || op == 3) && p) { put_elem((a_byte *)p, q[1].siz_, a2); }
+            if ((op == 1 || op == 2 || op == 3 || op == 12) && p) { put_elem((a_byte *)p, q[1].siz_, a2); }
             if ((op >= 4 && op <= 9) && p) { rval = get_elem((a_byte *)p, q[1].siz_); }
             fputs(",\"post\":{\"q1\":", fo);
             put_que(fo, &q[1], 1);
